@@ -104,3 +104,156 @@ Example commit_chain_result :
   commit (cont Chain.ob) (cont Chain.nb) Chain.w Chain.st Chain.order (rev Chain.order) Chain.go (tree_of Chain.ob)
   = Ok [([P 2], File [1; 2]); ([P 3], File [3])]%N.
 Proof. exact Chain.result. Qed.
+
+(* ------------------------------------------------------------------------------------------ *)
+(** * C02 composed with C14: the overlay hypothesis discharged for the real overlay writer
+
+    [mk_overlay_c14 bufSize threshold sched junk cur new] (Compose/CommitOverlay.v) is the stage
+    overlay that pwr/overlay produces and pwr/bowl applies: the C14 writer model
+    ([NewOverlayWriter(r, 0, f, 0)] on the old content [cur], the Write/Flush calls [sched cur
+    new], [Finalize]) at the real varint/protobuf codec writes the stage file over whatever it
+    held before ([junk cur new]: the file is opened without O_TRUNC), and the file is read the way
+    [OverlayPatchContext.Patch] (and the harness' [decodeOverlay]) reads it.  The names of the two
+    models clash ([Skip], [Fresh], [commit], [mkW], [apply_ops]), hence the qualifiers. *)
+From Wharf Require Import Overlay.Writer Overlay.Patch Overlay.Codec.
+From Wharf Require Import Compose.CommitOverlay Compose.CommitOverlayProofs Compose.CommitOverlayBytes
+  Compose.CommitOverlayBytesProofs Compose.CommitOverlayExample.
+
+(** The bridge between the two models: [applyOverlays] as C14 has it - [Patch] of the stage file
+    onto the old file, [Truncate] at the final position - computes C02's [apply_ops] of the
+    operations the file decodes to, for any decoder and magic; a file that does not decode
+    (wrong magic, bad message, no end marker) makes [Patch] fail. *)
+Theorem overlay_patch_is_apply_ops :
+  forall (dec : list byte -> option (Writer.op * list byte)) (magic : list byte) (cur file : list byte),
+    match decode_file dec magic file with
+    | Some ops => patch dec magic cur file = POk (OverlayCommit.apply_ops (conv_ops ops) cur)
+    | None => forall r, patch dec magic cur file <> POk r
+    end.
+Proof. exact patch_is_apply_ops. Qed.
+Print Assumptions overlay_patch_is_apply_ops.
+
+(** The hypothesis of [patch_phase_sound] / [inplace_apply_equals_new] holds of the C14 writer,
+    for every bufSize > 0, every threshold, every way of cutting the new content into Write calls
+    with Flushes anywhere, every previous content of the stage file (from [overlay_correct] and
+    [real_codec_is_prefix_code] of C14). *)
+Theorem overlay_writer_satisfies_commit_hypothesis :
+  forall (bufSize threshold : N), (0 < bufSize)%N ->
+  forall (sched : list N -> list N -> list event) (junk : list N -> list N -> list byte),
+    (forall cur new, written (sched cur new) = new) ->
+  forall cur new, OverlayCommit.apply_ops (mk_overlay_c14 bufSize threshold sched junk cur new) cur = new.
+Proof. exact mk_overlay_c14_ok. Qed.
+Print Assumptions overlay_writer_satisfies_commit_hypothesis.
+
+(** [patch_phase_sound] without a hypothesis on the overlay writer. *)
+Theorem patch_phase_sound_overlay_instance :
+  forall (bufSize threshold : N), (0 < bufSize)%N ->
+  forall (sched : list N -> list N -> list event) (junk : list N -> list N -> list byte),
+    (forall cur new, written (sched cur new) = new) ->
+  forall (ob nb : build), wf_build ob ->
+  forall (steps : list pstep), steps_describe ob nb steps ->
+    let wd := patch_phase (mk_overlay_c14 bufSize threshold sched junk) (cont ob) steps (world0 ob) in
+    out wd = tree_of ob /\ patch_sound ob nb (wk wd) (stg wd).
+Proof. exact patch_phase_sound_overlay_instance_lemma. Qed.
+Print Assumptions patch_phase_sound_overlay_instance.
+
+(** [inplace_apply_equals_new] without a hypothesis on the overlay writer. *)
+Theorem inplace_apply_equals_new_overlay_instance :
+  forall (bufSize threshold : N), (0 < bufSize)%N ->
+  forall (sched : list N -> list N -> list event) (junk : list N -> list N -> list byte),
+    (forall cur new, written (sched cur new) = new) ->
+  forall (ob nb : build) (steps : list pstep),
+    wf_build ob -> wf_build nb -> steps_describe ob nb steps ->
+    let wd := patch_phase (mk_overlay_c14 bufSize threshold sched junk) (cont ob) steps (world0 ob) in
+    H_kinds ob nb (wk wd) ->
+  forall (order1 order2 : list path) (go : list ghost),
+    Permutation order1 (trans_keys (wk wd)) -> Permutation order2 (trans_keys (wk wd)) -> ghost_order_ok nb ob go ->
+    out wd = tree_of ob /\
+    exists t', OverlayCommit.commit (cont ob) (cont nb) (wk wd) (stg wd) order1 order2 go (out wd) = Ok t' /\
+               forall p, lookup t' p = lookup (tree_of nb) p.
+Proof. exact inplace_apply_overlay_instance_lemma. Qed.
+Print Assumptions inplace_apply_equals_new_overlay_instance.
+
+(** The same with the stage folder holding bytes (Compose/CommitOverlayBytes.v): an overlay
+    stage file is what the C14 writer wrote, a move stage file is the written content, Commit's
+    [applyOverlays] runs C14's [Patch] + truncate on the stage file ([commit_b]; every other
+    phase is the C02 model).  Here every [GetWriter] call ([BWrite p evs file0]) has its own
+    sequence of Write/Flush calls and its own previous stage file, so the quantification over the
+    write pattern is per file, not per (old content, new content) pair.
+
+    First: Commit on bytes is C02's Commit on the decoded stage ([decode_stage]: the file of a
+    pending overlay is replaced by the operations it decodes to), provided no path is both a move
+    and an overlay and every pending overlay's file decodes. *)
+Theorem commit_on_bytes_is_commit_on_decoded_stage :
+  forall (oc nc : container) (w : work) (st : bstage) (order1 order2 : list path) (go : list ghost) (t : fs),
+    (forall p, In p (w_moves w) -> ~ In p (w_over w)) -> decodable w st ->
+    commit_b oc nc w st order1 order2 go t = OverlayCommit.commit oc nc w (decode_stage w st) order1 order2 go t.
+Proof. exact commit_b_decode_lemma. Qed.
+Print Assumptions commit_on_bytes_is_commit_on_decoded_stage.
+
+Theorem patch_phase_sound_bytes :
+  forall (bufSize threshold : N), (0 < bufSize)%N ->
+  forall (ob nb : build), wf_build ob ->
+  forall (steps : list bstep), steps_describe ob nb (map erase steps) ->
+    let bw := patch_phase_b bufSize threshold (cont ob) steps (bworld0 (tree_of ob)) in
+    bout bw = tree_of ob /\
+    patch_sound ob nb (bwk bw) (decode_stage (bwk bw) (bstg bw)) /\
+    decodable (bwk bw) (bstg bw).
+Proof. exact patch_phase_b_sound_lemma. Qed.
+Print Assumptions patch_phase_sound_bytes.
+
+Theorem inplace_apply_equals_new_bytes :
+  forall (bufSize threshold : N), (0 < bufSize)%N ->
+  forall (ob nb : build) (steps : list bstep),
+    wf_build ob -> wf_build nb -> steps_describe ob nb (map erase steps) ->
+    let bw := patch_phase_b bufSize threshold (cont ob) steps (bworld0 (tree_of ob)) in
+    H_kinds ob nb (bwk bw) ->
+  forall (order1 order2 : list path) (go : list ghost),
+    Permutation order1 (trans_keys (bwk bw)) -> Permutation order2 (trans_keys (bwk bw)) -> ghost_order_ok nb ob go ->
+    bout bw = tree_of ob /\
+    exists t', commit_b (cont ob) (cont nb) (bwk bw) (bstg bw) order1 order2 go (bout bw) = Ok t' /\
+               forall p, lookup t' p = lookup (tree_of nb) p.
+Proof. exact inplace_apply_bytes_lemma. Qed.
+Print Assumptions inplace_apply_equals_new_bytes.
+
+(** Executed instance, bufSize 4 / threshold 1 (Compose/CommitOverlayExample.v): old build
+    {[P 1] = 11111111, [P 2] = 56}, new build {[P 1] = 11911117, [P 3] = 56}; the patcher writes
+    [P 1] as 3 bytes, a Flush, 5 bytes over a stage file holding 40 bytes of junk and transposes
+    [P 2] to [P 3].  All hypotheses of [inplace_apply_equals_new_overlay_instance] hold; the
+    stage overlay is SKIP 2, FRESH 9, SKIP 4, FRESH 7; Commit patches [P 1] in place, renames
+    [P 2] and yields the new build - on the decoded stage and on the bytes alike. *)
+Example overlay_instance_hypotheses_inhabited :
+  (forall cur new, written (PatchAndRename.sched cur new) = new) /\
+  wf_build PatchAndRename.ob /\ wf_build PatchAndRename.nb /\
+  steps_describe PatchAndRename.ob PatchAndRename.nb PatchAndRename.steps /\
+  H_kinds PatchAndRename.ob PatchAndRename.nb (wk PatchAndRename.wd) /\
+  Permutation PatchAndRename.order (trans_keys (wk PatchAndRename.wd)) /\
+  ghost_order_ok PatchAndRename.nb PatchAndRename.ob PatchAndRename.go.
+Proof.
+  exact (conj PatchAndRename.sched_ok (conj PatchAndRename.wf_ob (conj PatchAndRename.wf_nb
+        (conj PatchAndRename.describe (conj PatchAndRename.kinds PatchAndRename.orders))))).
+Qed.
+
+Example overlay_instance_example :
+  let ob := mkB [] [] [([P 1], [1; 1; 1; 1; 1; 1; 1; 1]); ([P 2], [5; 6])]%N in
+  let nb := mkB [] [] [([P 1], [1; 1; 9; 1; 1; 1; 1; 7]); ([P 3], [5; 6])]%N in
+  let steps := [PWrite [P 1] (fun _ => [1; 1; 9; 1; 1; 1; 1; 7]%N); PTranspose [P 3] [P 2]] in
+  let sched := fun (cur new : list N) => [EvWrite (firstn 3 new); EvFlush; EvWrite (skipn 3 new)] in
+  let junk := fun (cur new : list N) => repeat 255%N 40 in
+  let wd := patch_phase (mk_overlay_c14 4 1 sched junk) (cont ob) steps (world0 ob) in
+  wk wd = OverlayCommit.mkW [([P 3], [P 2])] [[P 1]] [] /\
+  stg wd = [([P 1], SOverlay [OverlayCommit.Skip 2; OverlayCommit.Fresh [9%N]; OverlayCommit.Skip 4; OverlayCommit.Fresh [7%N]])] /\
+  OverlayCommit.commit (cont ob) (cont nb) (wk wd) (stg wd) [[P 2]] [[P 2]] [(GFile, [P 2])] (out wd)
+  = Ok [([P 1], File [1; 1; 9; 1; 1; 1; 1; 7]%N); ([P 3], File [5; 6]%N)].
+Proof. vm_compute. repeat split. Qed.
+
+Example overlay_instance_example_bytes :
+  let ob := mkB [] [] [([P 1], [1; 1; 1; 1; 1; 1; 1; 1]); ([P 2], [5; 6])]%N in
+  let nb := mkB [] [] [([P 1], [1; 1; 9; 1; 1; 1; 1; 7]); ([P 3], [5; 6])]%N in
+  let steps := [BWrite [P 1] (fun _ => [EvWrite [1; 1; 9]; EvFlush; EvWrite [1; 1; 1; 1; 7]]%N) (repeat 255%N 40);
+                BTranspose [P 3] [P 2]] in
+  let bw := patch_phase_b 4 1 (cont ob) steps (bworld0 (tree_of ob)) in
+  bstg bw = [([P 1], [0; 111; 239; 15; 0; 2; 16; 2; 5; 8; 1; 26; 1; 9; 2; 16; 4; 5; 8; 1; 26; 1; 7; 3; 8; 248; 15]%N
+                      ++ repeat 255%N 13)] /\
+  commit_b (cont ob) (cont nb) (bwk bw) (bstg bw) [[P 2]] [[P 2]] [(GFile, [P 2])] (bout bw)
+  = Ok [([P 1], File [1; 1; 9; 1; 1; 1; 1; 7]%N); ([P 3], File [5; 6]%N)].
+Proof. vm_compute. repeat split. Qed.
